@@ -164,9 +164,8 @@ Definition py_int (s : bytes) : res Z :=
   else
     let t := bytes_strip s in
     let '(neg, body) := match t with
-                        | 45 :: r => (true, r)
-                        | 43 :: r => (false, r)
-                        | _ => (false, t) end in
+                        | c :: r => if c =? 45 then (true, r) else if c =? 43 then (false, r) else (false, t)
+                        | [] => (false, t) end in
     match digits_val 0 false body with
     | Some v => Ok (if neg then - v else v)
     | None => Exc "ValueError"
